@@ -1,7 +1,10 @@
 package c15
 
 import (
+	"bytes"
+	"compress/gzip"
 	"fmt"
+	"os"
 	"strings"
 	"time"
 
@@ -78,6 +81,22 @@ func doRepop(c *core.Ctx, gmode, gtext, intended string, ns []*core.N) {
 		args = append(args, "-g", c.TmpFile(gtext))
 	case "missing":
 		args = append(args, "-g", c.TmpFile("")+".does-not-exist")
+	case "gz": // the .gz branch of readIdenticalGroupFile: gtext is what the file holds once decompressed
+		var buf bytes.Buffer
+		w := gzip.NewWriter(&buf)
+		w.Write([]byte(gtext))
+		w.Close()
+		path := c.TmpFile("") + ".gz"
+		if err := os.WriteFile(path, buf.Bytes(), 0644); err != nil {
+			panic(err)
+		}
+		args = append(args, "-g", path)
+	case "fakegz": // a .gz name on plain text: gzip.NewReader fails, the error is overwritten like os.Open's
+		path := c.TmpFile("") + ".gz"
+		if err := os.WriteFile(path, []byte(gtext), 0644); err != nil {
+			panic(err)
+		}
+		args = append(args, "-g", path)
 	}
 	oc, outs := runMulti(c, args...)
 	c.Emit("C15.repop", gmode, core.Escape(gtext), intended, dumps, oc, outs)
@@ -185,13 +204,36 @@ func cmdCases(c *core.Ctx) {
 				}
 			}
 		}
+		// a line longer than bufio's 4096-byte buffer (Readln's isPrefix loop), lengths around the boundary
+		// included: the last new name of some group is padded
+		fullLast := false // aim at the unterminated last line that fills bufio's buffer exactly (finding of round 7b)
+		if g.Chance(0.15) {
+			for gi, grp := range groups {
+				last := len(grp) - 1
+				if len(grp) >= 2 && strings.HasPrefix(grp[last], "n") {
+					target := []int{4095, 4096, 4097, 6000, 8192, 8193}[g.Intn(6)]
+					if pad := target - len(strings.Join(grp, ",")); pad > 0 {
+						groups[gi][last] = grp[last] + strings.Repeat("x", pad)
+					}
+					if target%4096 == 0 && g.Chance(0.6) {
+						groups[gi], groups[len(groups)-1] = groups[len(groups)-1], groups[gi]
+						fullLast = true
+					}
+					break
+				}
+			}
+		}
 		var lines []string
 		for _, grp := range groups {
 			lines = append(lines, strings.Join(grp, ","))
 		}
 		gtext := strings.Join(lines, "\n") + "\n"
 		intended = core.StrLists(groups)
-		switch g.Intn(10) {
+		spell := g.Intn(10)
+		if fullLast {
+			spell = 2
+		}
+		switch spell {
 		case 0, 1:
 			gtext = strings.Join(lines, "\r\n") + "\r\n"
 		case 2, 3:
@@ -212,6 +254,10 @@ func cmdCases(c *core.Ctx) {
 		}
 		if gmode != "file" {
 			gtext, intended = "", "-"
+		} else if k := g.Intn(10); k <= 1 {
+			gmode = "gz"
+		} else if k == 2 {
+			gmode, intended = "fakegz", "-"
 		}
 		doRepop(c, gmode, gtext, intended, ns)
 	case k < 9: // collapse single on several trees
